@@ -5,14 +5,15 @@ cd "$(dirname "$0")"
 . ./env.sh
 cp /repo/go.sum ./go.sum 2>/dev/null || true
 mkdir -p bin
+OUT="${VERIF_BIN:-bin/vcheck}"
 # serialise concurrent builds
 exec 9>bin/.lock
 flock 9
 if [ -n "$VERIF_REPO" ] && [ "$VERIF_REPO" != "/repo" ]; then
   # isolated copy of the repository (background runs while /repo is being patched)
-  sed "s|=> /repo|=> $VERIF_REPO|" go.mod > bin/alt.mod
-  cp go.sum bin/alt.sum
-  go build -modfile=bin/alt.mod -tags verif -o bin/vcheck ./cmd/vcheck
+  sed "s|=> /repo|=> $VERIF_REPO|" go.mod > "$OUT.mod"
+  cp go.sum "$OUT.sum"
+  go build -modfile="$OUT.mod" -tags verif -o "$OUT" ./cmd/vcheck
 else
-  go build -tags verif -o bin/vcheck ./cmd/vcheck
+  go build -tags verif -o "$OUT" ./cmd/vcheck
 fi
